@@ -1,7 +1,427 @@
-//! stub (to be implemented)
-#![allow(dead_code, unused_variables)]
-use crate::common::*;
+//! E3 `sched` — preemption-bounded exhaustive interleavings of real threads on one real store
+//! (DESIGN §5 E3). Serves C04.
+
+use std::collections::BTreeSet;
+use std::path::{Path, PathBuf};
+use std::sync::atomic::{AtomicU64, Ordering};
+use std::sync::{Arc, Mutex};
+use std::time::Instant;
+
+use bitcask::storage::bitcask::{Config, VerifMergePolicy};
+use bitcask::storage::KeyValueStorage;
+use bytes::Bytes;
 use serde_json::{json, Value};
-pub fn worker(job: &Job) -> Shard { Shard::default() }
-pub fn replay(prop: &str, case: &Value) -> Vec<Violation> { vec![] }
-pub fn report_meta(prop: &str, tier: Tier) -> (String, Value, Vec<String>) { (String::new(), json!({}), vec![]) }
+
+use crate::common::*;
+use crate::iohook;
+use crate::model::{linearizations_final_states, Kv, LEvent, LOp, LRes};
+use crate::sched::{self, Decision, RunEnd, Sched};
+
+#[derive(Clone, Debug, PartialEq, Eq)]
+pub enum SOp {
+    Put(&'static str, usize),
+    Get(&'static str),
+    Del(&'static str),
+    Merge,
+    Sync,
+}
+
+impl SOp {
+    fn show(&self) -> String {
+        match self {
+            SOp::Put(k, n) => format!("put({},{}B)", k, n),
+            SOp::Get(k) => format!("get({})", k),
+            SOp::Del(k) => format!("del({})", k),
+            SOp::Merge => "merge".into(),
+            SOp::Sync => "sync".into(),
+        }
+    }
+    fn lop(&self) -> LOp {
+        match self {
+            SOp::Put(k, n) => LOp::Set(k.as_bytes().to_vec(), val(*n).to_vec()),
+            SOp::Get(k) => LOp::Get(k.as_bytes().to_vec()),
+            SOp::Del(k) => LOp::Del(k.as_bytes().to_vec()),
+            SOp::Merge | SOp::Sync => LOp::Nop,
+        }
+    }
+}
+
+fn val(n: usize) -> Bytes {
+    // the value is determined by its length: distinct lengths = distinct values
+    Bytes::from(vec![b'a' + (n % 23) as u8; n])
+}
+fn kb(k: &str) -> Bytes {
+    Bytes::from(k.to_string())
+}
+
+#[derive(Clone, Debug)]
+pub struct Harness {
+    pub name: &'static str,
+    pub mfs: u64,
+    pub conc: usize,
+    pub cache: usize,
+    pub seed: u64,
+    pub preload: Vec<SOp>,
+    pub progs: Vec<Vec<SOp>>,
+    pub sync_always: bool,
+}
+
+pub const BIG: usize = 9000;
+const MFS_BIG: u64 = 1 << 31;
+
+pub fn harnesses() -> Vec<Harness> {
+    use SOp::*;
+    let h = |name, mfs, conc, preload: Vec<SOp>, progs: Vec<Vec<SOp>>| Harness { name, mfs, conc, cache: 4, seed: 1, preload, progs, sync_always: false };
+    let mut v = vec![
+        // H1: reader between the two write(2) calls of an entry larger than the write buffer
+        h("H1-big-put-vs-reads", MFS_BIG, 1, vec![Put("a", 3)], vec![vec![Put("b", BIG)], vec![Get("a"), Get("b")]]),
+        h("H1b-big-overwrite-vs-reads", MFS_BIG, 1, vec![Put("a", 3)], vec![vec![Put("a", BIG)], vec![Get("a"), Get("a")]]),
+        h("H2-overwrite-vs-reads", MFS_BIG, 1, vec![Put("a", 3)], vec![vec![Put("a", 7)], vec![Get("a"), Get("a")]]),
+        h("H3-del-put-get", MFS_BIG, 1, vec![Put("a", 3)], vec![vec![Del("a")], vec![Put("a", 7)], vec![Get("a")]]),
+        h("H4-merge-vs-reads", 0, 1, vec![Put("a", 3), Put("b", 4)], vec![vec![Merge], vec![Get("a"), Get("b")]]),
+        h("H4b-merge-vs-reads-one-file", MFS_BIG, 1, vec![Put("a", 3), Put("b", 4), Put("a", 5)], vec![vec![Merge], vec![Get("a"), Get("b")]]),
+        h("H5-merge-put-get", 0, 1, vec![Put("a", 3)], vec![vec![Merge], vec![Put("a", 7)], vec![Get("a")]]),
+        h("H5b-merge-del-get", 0, 1, vec![Put("a", 3), Put("b", 4)], vec![vec![Merge], vec![Del("a")], vec![Get("a")]]),
+        h("H6-rollover-put-vs-reads", 0, 1, vec![Put("a", 3)], vec![vec![Put("a", 7)], vec![Get("a"), Get("a")]]),
+        h("H7-two-readers-one-pooled", MFS_BIG, 1, vec![Put("a", 3)], vec![vec![Get("a")], vec![Get("b")], vec![Put("b", 4)]]),
+        h("H7b-two-readers-two-pooled", MFS_BIG, 2, vec![Put("a", 3)], vec![vec![Get("a")], vec![Get("b")], vec![Put("b", 4)]]),
+        h("H8-two-writers-two-keys", 60, 2, vec![Put("a", 3)], vec![vec![Put("a", 7), Del("b")], vec![Put("b", 4), Get("a")]]),
+        h("H9-merge-twice-vs-read", 0, 1, vec![Put("a", 3), Put("a", 5)], vec![vec![Merge, Merge], vec![Get("a"), Get("a")]]),
+    ];
+    // cache size 0: every read re-opens and re-maps its file
+    let mut c0 = h("H4c-merge-vs-reads-cache0", 0, 1, vec![Put("a", 3), Put("b", 4)], vec![vec![Merge], vec![Get("a"), Get("b")]]);
+    c0.cache = 0;
+    v.push(c0);
+    let mut s1 = h("H10-sync-always-put-vs-read", MFS_BIG, 1, vec![Put("a", 3)], vec![vec![Put("a", 7)], vec![Get("a")], vec![Sync]]);
+    s1.sync_always = true;
+    v.push(s1);
+    v
+}
+
+#[derive(Clone, Debug)]
+pub struct Rec {
+    pub thread: usize,
+    pub op: SOp,
+    pub inv: u64,
+    pub ret: u64,
+    pub out: String,
+    pub res: LRes,
+}
+
+pub struct Outcome {
+    pub trace: Vec<Decision>,
+    pub labels: Vec<String>,
+    pub recs: Vec<Rec>,
+    pub end: RunEnd,
+    pub final_reads: Vec<(String, Result<Option<usize>, String>)>,
+    pub pool: (usize, usize),
+    pub init: Kv,
+    pub control_states: Vec<u64>,
+}
+
+static SEQ: AtomicU64 = AtomicU64::new(0);
+
+fn exec_op(h: &bitcask::storage::bitcask::Handle, op: &SOp) -> (String, LRes) {
+    let r = std::panic::catch_unwind(std::panic::AssertUnwindSafe(|| match op {
+        SOp::Put(k, n) => match h.set(kb(k), val(*n)) {
+            Ok(()) => ("ok".to_string(), LRes::Unit),
+            Err(e) => (format!("Err({})", e), LRes::Pending),
+        },
+        SOp::Get(k) => match h.get(kb(k)) {
+            Ok(v) => (format!("{:?}", v.as_ref().map(|x| x.len())), LRes::Val(v.map(|x| x.to_vec()))),
+            Err(e) => (format!("Err({})", e), LRes::Pending),
+        },
+        SOp::Del(k) => match h.del(kb(k)) {
+            Ok(bv) => (format!("{}", bv), LRes::Bool(bv)),
+            Err(e) => (format!("Err({})", e), LRes::Pending),
+        },
+        SOp::Merge => match h.verif_merge() {
+            Ok(()) => ("ok".to_string(), LRes::Unit),
+            Err(e) => (format!("Err({})", e), LRes::Pending),
+        },
+        SOp::Sync => match h.verif_sync() {
+            Ok(()) => ("ok".to_string(), LRes::Unit),
+            Err(e) => (format!("Err({})", e), LRes::Pending),
+        },
+    }));
+    match r {
+        Ok(x) => x,
+        Err(e) => {
+            let m = if let Some(s) = e.downcast_ref::<&str>() {
+                s.to_string()
+            } else if let Some(s) = e.downcast_ref::<String>() {
+                s.clone()
+            } else {
+                "?".into()
+            };
+            (format!("PANIC({})", m), LRes::Pending)
+        }
+    }
+}
+
+pub fn run_one(prefix: &[usize], hs: &Harness, dir: &Path) -> Outcome {
+    let prefix = prefix.to_vec();
+    let hs = hs.clone();
+    let dir = dir.to_path_buf();
+    std::thread::spawn(move || run_one_here(&prefix, &hs, &dir)).join().expect("schedule thread")
+}
+
+fn run_one_here(prefix: &[usize], hs: &Harness, dir: &Path) -> Outcome {
+    iohook::set_seed(Some(hs.seed));
+    rmrf(dir);
+    std::fs::create_dir_all(dir).unwrap();
+    let mut c = Config::default();
+    c.path(dir).concurrency(hs.conc).readers_cache_size(hs.cache).max_file_size(hs.mfs).merge_policy(VerifMergePolicy::Never);
+    c.merge_threshold_small_file(u64::MAX).merge_threshold_dead_bytes(u64::MAX).merge_threshold_fragmentation(1.0);
+    if hs.sync_always {
+        c.sync(bitcask::storage::bitcask::SyncStrategy::Always);
+    }
+    let kv = c.open().expect("open");
+    let h = kv.get_handle();
+    let mut init = Kv::new();
+    for op in &hs.preload {
+        let _ = exec_op(&h, op);
+        match op {
+            SOp::Put(k, n) => {
+                init.insert(k.as_bytes().to_vec(), val(*n).to_vec());
+            }
+            SOp::Del(k) => {
+                init.remove(k.as_bytes());
+            }
+            _ => {}
+        }
+    }
+    let sched: &'static Sched = Sched::new_leaked(hs.progs.len());
+    let recs = Arc::new(Mutex::new(Vec::<Rec>::new()));
+    let mut joins = vec![];
+    for (i, prog) in hs.progs.iter().cloned().enumerate() {
+        let h = h.clone();
+        let recs = recs.clone();
+        joins.push(std::thread::spawn(move || {
+            sched::attach(sched, i);
+            sched::park(None, false, "start");
+            for op in prog {
+                let inv = SEQ.fetch_add(1, Ordering::SeqCst);
+                let (out, res) = exec_op(&h, &op);
+                let ret = SEQ.fetch_add(1, Ordering::SeqCst);
+                recs.lock().unwrap().push(Rec { thread: i, op, inv, ret, out, res });
+            }
+            sched::finish();
+        }));
+    }
+    // drive, recording the global control state after every decision
+    let (trace, labels, end) = sched::drive(sched, prefix, 2000);
+    for j in joins {
+        let _ = j.join();
+    }
+    let mut control_states = vec![];
+    {
+        // control states: prefix-closed hashes of the label sequence per thread (which points each thread has passed)
+        let mut per: Vec<u64> = vec![0; hs.progs.len()];
+        for (d, l) in trace.iter().zip(labels.iter()) {
+            per[d.thread] = fnv(format!("{}|{}", per[d.thread], l).as_bytes());
+            control_states.push(fnv(format!("{}|{:?}", hs.name, per).as_bytes()));
+        }
+    }
+    let pool = h.verif_pool();
+    let mut final_reads = vec![];
+    let keys: BTreeSet<&'static str> = hs.preload.iter().chain(hs.progs.iter().flatten()).filter_map(|o| match o {
+        SOp::Put(k, _) | SOp::Get(k) | SOp::Del(k) => Some(*k),
+        _ => None,
+    }).collect();
+    for k in keys {
+        let r = if h.verif_pool().0 == 0 {
+            Err("HANG: reader pool empty".to_string())
+        } else {
+            match std::panic::catch_unwind(std::panic::AssertUnwindSafe(|| h.get(kb(k)))) {
+                Ok(Ok(v)) => Ok(v.map(|x| x.len())),
+                Ok(Err(e)) => Err(format!("Err({})", e)),
+                Err(_) => Err("PANIC".to_string()),
+            }
+        };
+        final_reads.push((k.to_string(), r));
+    }
+    drop(h);
+    drop(kv);
+    iohook::set_seed(None);
+    let recs = recs.lock().unwrap().clone();
+    Outcome { trace, labels, recs, end, final_reads, pool, init, control_states }
+}
+
+/// Judge one execution. Returns (class, message) of the first violation.
+pub fn judge(o: &Outcome, hs: &Harness) -> Option<(String, String)> {
+    match &o.end {
+        RunEnd::Stuck(d) => return Some(("deadlock-or-livelock".into(), format!("no progress possible: {}", d))),
+        RunEnd::Stall(d) => return Some(("MACHINERY:stall".into(), d.clone())),
+        RunEnd::Diverged(d) => return Some(("MACHINERY:diverged".into(), d.clone())),
+        RunEnd::AllDone => {}
+    }
+    let expected: usize = hs.progs.iter().map(|p| p.len()).sum();
+    if o.recs.len() != expected {
+        return Some(("operation-never-completed".into(), format!("{} of {} operations returned", o.recs.len(), expected)));
+    }
+    if let Some(r) = o.recs.iter().find(|r| r.out.starts_with("PANIC")) {
+        return Some(("op-panic".into(), format!("T{} {} -> {}", r.thread, r.op.show(), r.out)));
+    }
+    if let Some(r) = o.recs.iter().find(|r| r.out.starts_with("Err")) {
+        return Some(("op-error".into(), format!("T{} {} -> {}", r.thread, r.op.show(), r.out)));
+    }
+    let evs: Vec<LEvent> = o.recs.iter().map(|r| LEvent { op: r.op.lop(), res: r.res.clone(), inv: r.inv, ret: r.ret }).collect();
+    let finals = linearizations_final_states(&o.init, &evs);
+    if finals.is_empty() {
+        return Some(("not-linearizable".into(), format!("history {:?}", o.recs.iter().map(|r| format!("T{} {}={} [{},{}]", r.thread, r.op.show(), r.out, r.inv, r.ret)).collect::<Vec<_>>())));
+    }
+    if o.pool.0 != o.pool.1 {
+        return Some(("reader-lost".into(), format!("{} of {} readers back in the pool after all operations returned", o.pool.0, o.pool.1)));
+    }
+    // final reads agree with the final state of some valid linearization
+    let ok = finals.iter().any(|m| o.final_reads.iter().all(|(k, r)| matches!(r, Ok(v) if *v == m.get(k.as_bytes()).map(|x| x.len()))));
+    if !ok {
+        return Some(("final-state-disagrees".into(), format!("final reads {:?}; final states of valid linearizations {:?}", o.final_reads, finals.iter().map(|m| m.iter().map(|(k, v)| (String::from_utf8_lossy(k).to_string(), v.len())).collect::<Vec<_>>()).collect::<Vec<_>>())));
+    }
+    None
+}
+
+fn outcome_sig(o: &Outcome) -> String {
+    let mut v: Vec<String> = o.recs.iter().map(|r| format!("T{}:{}={}", r.thread, r.op.show(), r.out)).collect();
+    v.sort();
+    format!("{} | final {:?}", v.join(" "), o.final_reads.iter().map(|(k, r)| format!("{}={:?}", k, r)).collect::<Vec<_>>())
+}
+
+fn case_json(hs: &Harness, sched_choices: &[usize], labels: &[String], bound: usize) -> Value {
+    json!({"engine": "sched", "harness": hs.name, "schedule": sched_choices, "steps": labels, "bound": bound,
+           "programs": hs.progs.iter().map(|p| p.iter().map(|o| o.show()).collect::<Vec<_>>()).collect::<Vec<_>>(),
+           "preload": hs.preload.iter().map(|o| o.show()).collect::<Vec<_>>(), "max_file_size": hs.mfs, "concurrency": hs.conc})
+}
+
+pub fn bound_for(tier: Tier) -> usize {
+    std::env::var("VH_PREEMPTIONS").ok().and_then(|s| s.parse().ok()).unwrap_or(tier.pick(2, 3))
+}
+
+pub fn worker(job: &Job) -> Shard {
+    let mut sh = Shard::default();
+    let t0 = Instant::now();
+    let scratch = job.scratch();
+    let dir = scratch.join("store");
+    let bound = bound_for(job.tier);
+    let hss = harnesses();
+    let mut first = true;
+    for hs in hss.iter() {
+        // root execution: default schedule; its children are distributed over the shards
+        let root = run_one(&[], hs, &dir);
+        if first {
+            let again = run_one(&[], hs, &dir);
+            if outcome_sig(&again) != outcome_sig(&root) || again.labels != root.labels {
+                sh.machinery_errors.push(format!("{}: the default schedule is not deterministic", hs.name));
+            }
+            first = false;
+        }
+        let children = sched::expand(&root.trace, 0, bound);
+        let mut stack: Vec<Vec<usize>> = vec![];
+        if job.shard == 0 {
+            account(&mut sh, hs, &root, &dir, bound, job);
+        }
+        for (i, c) in children.into_iter().enumerate() {
+            if i % job.nshards == job.shard {
+                stack.push(c);
+            }
+        }
+        let mut n = 0u64;
+        let mut max_steps = root.trace.len();
+        while let Some(prefix) = stack.pop() {
+            if t0.elapsed().as_secs() > job.deadline_s {
+                sh.capped = true;
+                sh.notes.insert(format!("time cap hit in harness {} after {} schedules of this shard", hs.name, n));
+                break;
+            }
+            if n % 50 == 0 {
+                job.progress(&json!({"engine": "sched", "harness": hs.name, "schedule": prefix}));
+            }
+            let o = run_one(&prefix, hs, &dir);
+            n += 1;
+            max_steps = max_steps.max(o.trace.len());
+            if let RunEnd::Diverged(d) = &o.end {
+                sh.machinery_errors.push(format!("{}: replay divergence: {} (prefix {:?})", hs.name, d, prefix));
+                continue;
+            }
+            account(&mut sh, hs, &o, &dir, bound, job);
+            for c in sched::expand(&o.trace, prefix.len(), bound) {
+                stack.push(c);
+            }
+        }
+        sh.count(&format!("schedules:{}", hs.name), n + u64::from(job.shard == 0));
+        let k = format!("max-steps:{}", hs.name);
+        let e = sh.counters.entry(k).or_insert(0);
+        *e = (*e).max(max_steps as u64);
+    }
+    rmrf(&scratch);
+    sh
+}
+
+fn account(sh: &mut Shard, hs: &Harness, o: &Outcome, dir: &Path, bound: usize, _job: &Job) {
+    sh.evaluations += 1;
+    sh.transitions += o.trace.len() as u64;
+    for s in &o.control_states {
+        sh.states.insert(*s);
+    }
+    let sig = outcome_sig(o);
+    sh.nontrivial.insert(fnv(format!("{}|{}|{:?}", hs.name, sig, o.trace.iter().map(|d| d.thread).collect::<Vec<_>>()).as_bytes()));
+    sh.outcome(format!("{}: {}", hs.name, sig));
+    if sh.samples.len() < 2 && sched::preemptions(&o.trace) >= 1 {
+        sh.samples.push(json!({"harness": hs.name, "schedule": o.labels, "history": o.recs.iter().map(|r| format!("T{} {} = {} [{}..{}]", r.thread, r.op.show(), r.out, r.inv, r.ret)).collect::<Vec<_>>()}));
+    }
+    if let Some((class, msg)) = judge(o, hs) {
+        let choices: Vec<usize> = o.trace.iter().map(|d| d.choice).collect();
+        if class.starts_with("MACHINERY") {
+            sh.machinery_errors.push(format!("{}: {} {} schedule {:?}", hs.name, class, msg, choices));
+            return;
+        }
+        // confirm by replaying the exact schedule
+        let again = run_one(&choices, hs, dir);
+        let j2 = judge(&again, hs);
+        if j2.as_ref().map(|x| &x.0) != Some(&class) {
+            sh.machinery_errors.push(format!("{}: violation {} not reproduced when replaying schedule {:?} (got {:?})", hs.name, class, choices, j2));
+            return;
+        }
+        sh.violate(Violation {
+            class: format!("C04:{}[{}]", class, hs.name),
+            msg: format!("{} | harness {} programs {:?} | preemptions {} | steps {:?}", msg, hs.name, hs.progs.iter().map(|p| p.iter().map(|o| o.show()).collect::<Vec<_>>()).collect::<Vec<_>>(), sched::preemptions(&o.trace), o.labels),
+            case: case_json(hs, &choices, &o.labels, bound),
+        });
+    }
+}
+
+pub fn replay(_prop: &str, case: &Value) -> Vec<Violation> {
+    let name = case["harness"].as_str().unwrap_or("");
+    let Some(hs) = harnesses().into_iter().find(|h| h.name == name) else { return vec![] };
+    let schedule: Vec<usize> = case["schedule"].as_array().map(|a| a.iter().map(|x| x.as_u64().unwrap() as usize).collect()).unwrap_or_default();
+    let dir = PathBuf::from(format!("/dev/shm/vh-replay-{}", std::process::id()));
+    let o = run_one(&schedule, &hs, &dir);
+    rmrf(&dir);
+    println!("replayed {} steps: {:?}", o.labels.len(), o.labels);
+    for r in &o.recs {
+        println!("  T{} {} = {} [{}..{}]", r.thread, r.op.show(), r.out, r.inv, r.ret);
+    }
+    match judge(&o, &hs) {
+        Some((class, msg)) => vec![Violation { class: format!("C04:{}[{}]", class, hs.name), msg, case: case.clone() }],
+        None => vec![],
+    }
+}
+
+pub fn report_meta(_prop: &str, tier: Tier) -> (String, Value, Vec<String>) {
+    let b = bound_for(tier);
+    let hss = harnesses();
+    let rule = format!(
+        "for each of {} harnesses (2-3 real threads, 1-2 Handle operations each, on one real store with forced key collisions) every schedule with at most {} preemptions is executed under a baton scheduler whose scheduling points are every interposed system call on a store file and every hook point before an access to shared state (writer mutex, KeyDir shard, reader pool, spin loop); depth-first search with replay by prefix; every execution runs to completion and is judged (no panic / error / deadlock / livelock, linearizable against the map model, final reads agree, pool restored). A schedule is distinct+non-trivial by (harness, outcome, thread order).",
+        hss.len(),
+        b
+    );
+    let bounds = json!({"preemption_bound": b, "harnesses": hss.iter().map(|h| json!({"name": h.name, "preload": h.preload.iter().map(|o| o.show()).collect::<Vec<_>>(), "threads": h.progs.iter().map(|p| p.iter().map(|o| o.show()).collect::<Vec<_>>()).collect::<Vec<_>>(), "max_file_size": h.mfs, "concurrency": h.conc, "readers_cache_size": h.cache})).collect::<Vec<_>>()});
+    let assumptions = vec![
+        "sequentially consistent execution at point granularity: code between two points touches only thread-local data (the crate has no unsafe impl Send/Sync; all cross-thread communication goes through parking_lot::Mutex, DashMap, ArrayQueue, AtomicCell and the file system, all of which carry points)".to_string(),
+        "shadow-lock model is conservative: a merge may move to the next KeyDir entry only while no reader holds a shard lock (removes schedules, never adds impossible ones)".to_string(),
+        "parking_lot, dashmap, crossbeam primitives are trusted to be linearizable; weak-memory effects below them are not modelled".to_string(),
+        "page-cache coherence of MAP_SHARED read mappings with write(2) as on Linux tmpfs".to_string(),
+    ];
+    (rule, bounds, assumptions)
+}
